@@ -182,7 +182,8 @@ def check_budget(bcase, stats: Stats):
         # the loop terminates: adding every suggestion leaves nothing Unknown
         appended = rules0 + '\n' + '\n\n'.join(with_category(it['suggested_rule']) for it in items) + '\n'
         b.write('config/merchants.rules', appended)
-        r2 = cli.run(['discover', '--format', 'json', '--limit', '0', b.config], cwd=b.root)
+        # (half of the time in the process state the first run left behind: the rules file has changed on disk since)
+        r2 = cli.run(['discover', '--format', 'json', '--limit', '0', b.config], cwd=b.root, fresh=bool(len(appended) % 2))
         if 'No unknown transactions found' in r2.out:
             remaining = []
         else:
